@@ -9,7 +9,19 @@
      fmt_prec p x  = Rust's `{:.p}` : only its rounding contract [prec_spec] is assumed; the
                                       executable float_fmt_prec (compared text-for-text with Rust)
                                       meets it: c17_fmt_prec_exact.
-   U is the Unicode classification; only its ASCII part is constrained (U_ascii). *)
+   U is the Unicode classification; only its ASCII part is constrained (U_ascii / U_num).
+
+   Vocabulary of the statements (defined in Proofs/Display.v, unfolded here for the reader):
+     short_shape x s   := if x < 0 then exists b, s = "-" ++ b /\ body_ok b else body_ok s      (H1)
+                          where body_ok = every character is an ASCII digit or '.'
+     prec_spec F fp    := (forall p x, F x -> x < 0 -> fp p x = "-" ++ fp p (-x))
+                          /\ (forall p x, F x -> 0 <= x -> exists n >= 0,
+                                 |n - x 10^p| <= 1/2 /\ fp p x = dec_point p n)
+                          where dec_point p n = the digits of n with the point p places from the right
+     good_var U p      := the printed variable (s_var p, or 'x') is alphabetic for U and not whitespace
+     wf_term F t       := F (t_coef t) /\ every variable is one ASCII letter with its exponent in F
+                          /\ the variables are strictly increasing (sorted, distinct)
+     close_term eps t t' := |t_coef t' - t_coef t| <= eps /\ same variable names, exponents within eps *)
 From Coq Require Import ZArith NArith List Reals Floats Lia Lra.
 From SV Require Import Base.Num Base.Outcome Base.Str Model.Poly Model.Parse Model.Display Proofs.Display.
 Import ListNotations.
@@ -39,6 +51,18 @@ Check c17_fmt_prec_exact : forall (p : nat) (s : bool) (m : positive) (e : Z),
     /\ @parse_dec R RNum (trim_num (dec_point p n)) = Some y
     /\ Rabs (y - IZR (Zpos m) * powerRZ 2 e) <= / 2 * / 10 ^ p.
 Print Assumptions c17_fmt_prec_exact.
+
+(* ... and a negative value prints as "-" followed by the text of its magnitude (-0.0 included) *)
+Theorem c17_fmt_prec_sign :
+  forall (p : nat) (m : positive) (e : Z),
+  sf_fmt_prec p (S754_finite true m e) = c_minus :: sf_fmt_prec p (S754_finite false m e)
+  /\ sf_fmt_prec p (S754_zero true) = c_minus :: sf_fmt_prec p (S754_zero false).
+Proof. exact Proofs.Display.c17_fmt_prec_sign. Qed.
+Check c17_fmt_prec_sign :
+  forall (p : nat) (m : positive) (e : Z),
+  sf_fmt_prec p (S754_finite true m e) = c_minus :: sf_fmt_prec p (S754_finite false m e)
+  /\ sf_fmt_prec p (S754_zero true) = c_minus :: sf_fmt_prec p (S754_zero false).
+Print Assumptions c17_fmt_prec_sign.
 
 (* float-independent form: any integer n within 1/2 of x 10^p, printed with the point p places from
    the right and trimmed the way the Display impls trim, reads back within 1/2 10^-p of x *)
@@ -143,6 +167,98 @@ Check c17_model_string :
     /\ (forall k, Rabs (nth k (s_coefs p') 0 - nth k coefs 0) <= / 2 * / 10 ^ 5).
 Print Assumptions c17_model_string.
 
+(* ---- IntermediatePolynomial, default formatting -------------------------------------------- *)
+(* well-formed terms (wf_term: numbers in F, variables = sorted distinct single ASCII letters):
+   the text reads back as EXACTLY the same term list -- coefficients and integer, negative or
+   fractional exponents -- with the variable list the parser derives from it *)
+Theorem c17_inter_default :
+  forall U : UClass, (forall c : N, (c < 128)%N -> u_numeric U c = is_ascii_digit c) ->
+  forall F : R -> Prop, (forall x, F x -> F (- x)) ->
+  forall (fmt_prec : nat -> R -> str) (fmt_short : R -> str),
+  (forall x, F x -> short_shape x (fmt_short x)) ->
+  (forall x, F x -> @parse_dec R RNum (fmt_short x) = Some x) ->
+  forall p : ipoly R,
+  i_terms p <> [] ->
+  (forall t, In t (i_terms p) -> wf_term F t) ->
+  parse_inter U (fmt_inter fmt_prec fmt_short None p)
+  = Ok {| i_terms := i_terms p; i_vars := var_set (i_terms p) |}.
+Proof. exact Proofs.Display.c17_inter_default. Qed.
+Check c17_inter_default :
+  forall U : UClass, (forall c : N, (c < 128)%N -> u_numeric U c = is_ascii_digit c) ->
+  forall F : R -> Prop, (forall x, F x -> F (- x)) ->
+  forall (fmt_prec : nat -> R -> str) (fmt_short : R -> str),
+  (forall x, F x -> short_shape x (fmt_short x)) ->
+  (forall x, F x -> @parse_dec R RNum (fmt_short x) = Some x) ->
+  forall p : ipoly R,
+  i_terms p <> [] ->
+  (forall t, In t (i_terms p) -> wf_term F t) ->
+  parse_inter U (fmt_inter fmt_prec fmt_short None p)
+  = Ok {| i_terms := i_terms p; i_vars := var_set (i_terms p) |}.
+Print Assumptions c17_inter_default.
+
+(* the zero polynomial (no terms) prints "0" and reads back as the constant term 0: equal in value *)
+Theorem c17_inter_zero :
+  forall U : UClass, (forall c : N, (c < 128)%N -> u_numeric U c = is_ascii_digit c) ->
+  forall (fmt_prec : nat -> R -> str) (fmt_short : R -> str) (p : ipoly R),
+  i_terms p = [] ->
+  exists c0, parse_inter U (fmt_inter fmt_prec fmt_short None p)
+             = Ok {| i_terms := [ {| t_coef := c0; t_vars := [] |} ]; i_vars := [] |} /\ c0 = 0.
+Proof. exact Proofs.Display.c17_inter_zero. Qed.
+Check c17_inter_zero :
+  forall U : UClass, (forall c : N, (c < 128)%N -> u_numeric U c = is_ascii_digit c) ->
+  forall (fmt_prec : nat -> R -> str) (fmt_short : R -> str) (p : ipoly R),
+  i_terms p = [] ->
+  exists c0, parse_inter U (fmt_inter fmt_prec fmt_short None p)
+             = Ok {| i_terms := [ {| t_coef := c0; t_vars := [] |} ]; i_vars := [] |} /\ c0 = 0.
+Print Assumptions c17_inter_zero.
+
+(* ---- a single Term (its own Display prints the signed coefficient) -------------------------- *)
+Theorem c17_term :
+  forall U : UClass, (forall c : N, (c < 128)%N -> u_numeric U c = is_ascii_digit c) ->
+  forall (F : R -> Prop) (fmt_prec : nat -> R -> str) (fmt_short : R -> str),
+  (forall x, F x -> short_shape x (fmt_short x)) ->
+  (forall x, F x -> @parse_dec R RNum (fmt_short x) = Some x) ->
+  forall t : term R, wf_term F t ->
+  parse_inter U (fmt_term fmt_prec fmt_short t)
+  = Ok {| i_terms := [t]; i_vars := var_set [t] |}.
+Proof. exact Proofs.Display.c17_term. Qed.
+Check c17_term :
+  forall U : UClass, (forall c : N, (c < 128)%N -> u_numeric U c = is_ascii_digit c) ->
+  forall (F : R -> Prop) (fmt_prec : nat -> R -> str) (fmt_short : R -> str),
+  (forall x, F x -> short_shape x (fmt_short x)) ->
+  (forall x, F x -> @parse_dec R RNum (fmt_short x) = Some x) ->
+  forall t : term R, wf_term F t ->
+  parse_inter U (fmt_term fmt_prec fmt_short t)
+  = Ok {| i_terms := [t]; i_vars := var_set [t] |}.
+Print Assumptions c17_term.
+
+(* ---- IntermediatePolynomial, every precision: same terms and variables, every coefficient and
+   every exponent within 1/2 10^-prec (close_term); exponent 1 is not printed and reads back as 1 *)
+Theorem c17_precision_inter :
+  forall U : UClass, (forall c : N, (c < 128)%N -> u_numeric U c = is_ascii_digit c) ->
+  forall F : R -> Prop, (forall x, F x -> F (- x)) ->
+  forall (fmt_prec : nat -> R -> str) (fmt_short : R -> str),
+  prec_spec F fmt_prec ->
+  forall (prec : nat) (p : ipoly R),
+  i_terms p <> [] ->
+  (forall t, In t (i_terms p) -> wf_term F t) ->
+  exists ts', parse_inter U (fmt_inter fmt_prec fmt_short (Some prec) p)
+              = Ok {| i_terms := ts'; i_vars := var_set (i_terms p) |}
+           /\ Forall2 (close_term (/ 2 * / 10 ^ prec)) (i_terms p) ts'.
+Proof. exact Proofs.Display.c17_precision_inter. Qed.
+Check c17_precision_inter :
+  forall U : UClass, (forall c : N, (c < 128)%N -> u_numeric U c = is_ascii_digit c) ->
+  forall F : R -> Prop, (forall x, F x -> F (- x)) ->
+  forall (fmt_prec : nat -> R -> str) (fmt_short : R -> str),
+  prec_spec F fmt_prec ->
+  forall (prec : nat) (p : ipoly R),
+  i_terms p <> [] ->
+  (forall t, In t (i_terms p) -> wf_term F t) ->
+  exists ts', parse_inter U (fmt_inter fmt_prec fmt_short (Some prec) p)
+              = Ok {| i_terms := ts'; i_vars := var_set (i_terms p) |}
+           /\ Forall2 (close_term (/ 2 * / 10 ^ prec)) (i_terms p) ts'.
+Print Assumptions c17_precision_inter.
+
 (* ---- non-vacuity ---------------------------------------------------------------------------- *)
 (* the hypotheses are jointly satisfiable: the executable Unicode table, F = the integers, printed
    exactly (int_fmt_short / int_fmt_prec of Proofs/Display.v) *)
@@ -182,3 +298,25 @@ Example c17_fmt_prec_ties :
   /\ float_fmt_prec 1 0x1.e666666666666p-1%float = [48; 46; 57]%N   (* 0.95 -> "0.9" *)
   /\ float_fmt_prec 2 (-0)%float = [45; 48; 46; 48; 48]%N.    (* -0.0 -> "-0.00" *)
 Proof. vm_compute. repeat split. Qed.
+
+(* the multivariate theorem applies to 2x^2y^-1 - 5 *)
+Example c17_inter_nonvacuous :
+  let p := {| i_terms := [ {| t_coef := 2; t_vars := [([120%N], 2); ([121%N], -1)] |};
+                           {| t_coef := -5; t_vars := [] |} ];
+              i_vars := [[120%N]; [121%N]] |} in
+  parse_inter uclass_tab (fmt_inter int_fmt_prec int_fmt_short None p)
+  = Ok {| i_terms := i_terms p; i_vars := var_set (i_terms p) |}.
+Proof.
+  intro p.
+  apply (c17_inter_default uclass_tab uclass_tab_num F_int F_int_opp int_fmt_prec int_fmt_short int_H1 int_H2 p).
+  - discriminate.
+  - intros t [<-|[<-|[]]]; (split; [|split]); cbn [t_coef t_vars].
+    + exists 2%Z; reflexivity.
+    + intros v e [E|[E|[]]]; injection E as <- <-; (split; [eexists; split; reflexivity|]);
+        [exists 2%Z|exists (-1)%Z]; reflexivity.
+    + split; [|split; [intros y []|exact I]].
+      intros y [<-|[]]. split; reflexivity.
+    + exists (-5)%Z; reflexivity.
+    + intros v e [].
+    + exact I.
+Qed.
